@@ -1,0 +1,27 @@
+//go:build verif
+
+package register
+
+// Contracts for /verif (contract-based deductive verification of the real
+// code). Comment-only: no code; visible only with the build tag "verif".
+//
+//@ func (*Register).Post
+//@   property C01 C19 C18
+//@   invariant loop#1 preserve_only: true
+//@   -- C19: nothing is created when validation fails
+//@   ensures[C19] validate_first: (emits Validate(_) -> ?errs :: errs != nil) ==>
+//@       (!emits Store.New() && !emits Store.Create(_) && !emits Sess.Put(_, _) && !emits Hash.Generate(_))
+//@   -- C19: the one record created carries the submitted pid and a hash of the submitted password
+//@   ensures[C19] one_create: each Store.Create(?u) -> _ => !(before Store.Create(_)) &&
+//@       before Hash.Generate(?pw) -> (?h, ?he) :: he == nil && Password(u) == h &&
+//@       before Body.Read(PageRegister) -> (?vals, ?re) :: re == nil && pw == val(vals, "GetPassword") && PID(u) == val(vals, "GetPID")
+//@   ensures[C19] created_is_new: each Store.Create(?u) -> _ => before Store.New() -> ?n :: n == u
+//@   ensures[C19,C01] duplicate_noop: each Store.Create(_) -> ?e => e != nil ==> (!emits Sess.Put(_, _) && !emits Store.Save(_) && !emits Redirect(_))
+//@   -- C01: the session is only written for the user this request created
+//@   ensures[C01] session_guard: each Sess.Put(?k, ?v) => k == "uid" &&
+//@       before Store.Create(?u) -> ?e :: e == nil && PID(u) == v
+//@   ensures[C19] login_only_if_unhandled: each Sess.Put("uid", _) =>
+//@       before Fire("After", EventRegister, ?cu, _, _) -> (?hd, ?e) :: hd == false && e == nil && (before Store.Create(?u) -> _ :: cu == u)
+//@   ensures[C18] no_panic: !panics
+//@   ensures[C18] create_error_outcome: each Store.Create(_) -> ?e => (e != nil && e != ErrUserFound) ==> (result == e && !emits Respond(_, _, _))
+//@   ensures[C18] hash_error_outcome: each Hash.Generate(_) -> (_, ?e) => e != nil ==> (result == e && !emits Store.Create(_))
